@@ -97,8 +97,8 @@ Section Embed.
       rewrite (ok_item_mac2 cx ps [] ws name post (map up_item args) fol sp l GS SA).
       apply andb_true_iff in H. destruct H as [H HA]. rewrite H. cbn [andb].
       apply andb_true_iff in HA. destruct HA as [HA FO]. rewrite hd_error_ostr in FO.
-      rewrite (OA args l ps fol ltac:(lia) HA), nabs_up, unparse_up_items. cbn [andb].
-      unfold mac_follow_ok2. rewrite FO. cbn [orb]. rewrite andb_true_r. unfold slots_ok. apply Nat.leb_le. lia.
+      rewrite (OA args l ps fol ltac:(lia) HA), unparse_up_items. cbn [andb].
+      unfold mac_follow_ok2. rewrite FO. cbn [orb]. reflexivity.
     - fold (lsize b) in SZ. rewrite ok_item_math in H. cbn [up_item]. rewrite ok_item_math2.
       apply andb_true_iff in H. destruct H as [H DL]. apply andb_true_iff in H. destruct H as [H HB].
       rewrite H. cbn [andb]. rewrite unparse_up_items, DL, andb_true_r.
